@@ -15,7 +15,8 @@ EXPLANATION = (
     "that tokio documents as not cancel-safe (WriteAllBuf, WriteAll, ReadExact, ...): anything parked there is destroyed when the "
     "read future is dropped by select!, while the connection buffer (reached through &mut self) survives. R19.2: read_buf awaits only "
     "AsyncReadExt::read (cancel-safe) and commits the bytes with advance_mut before any further suspension. R19.3: the adaptors' "
-    "poll_read return Pending only on their source's own Pending edge, before any byte was consumed into a local. Not decided: "
+    "poll_read return Pending only on their source's own Pending edge, before any byte was consumed into a local. Bytes leave the async "
+    "receive buffer only through the decoder (who-may-shorten rule shared with C05). Not decided: "
     "exhaustive schedule equivalence; behaviour of external transports under cancellation."
 )
 
